@@ -285,24 +285,40 @@ def flag_exact(repo: Repo, m: ModuleInfo, res: CheckResult) -> None:
         raise AnalysisError("anchor vanished: FlagByExactValueProvider._make_loader")
     fn = ci.methods["_make_loader"]
     res.evaluated("flag-exact:mask-validation", True)
-    raises = []
-    for node in fn.body:
-        if isinstance(node, ast.If) and any(isinstance(s, ast.Raise) and "CannotProvide" in norm(s) for s in node.body):
-            raises.append(norm(node.test))
-    neg = any("< 0" in t for t in raises)
-    contiguous = any("!=" in t and ("all_bits" in t or "bit_length" in t) for t in raises)
-    if not neg:
+    raise_tests = [node.test for node in fn.body
+                   if isinstance(node, ast.If) and any(isinstance(s, ast.Raise) and "CannotProvide" in norm(s) for s in node.body)]
+    raises = [norm(t) for t in raise_tests]
+    defs = {norm(a.targets[0]): a.value for a in fn.body if isinstance(a, ast.Assign) and isinstance(a.targets[0], ast.Name)}
+    mask_var = None
+    for t in raise_tests:
+        for c in ast.walk(t):
+            if isinstance(c, ast.Compare) and len(c.ops) == 1:
+                l, r = c.left, c.comparators[0]
+                if isinstance(c.ops[0], ast.Lt) and isinstance(l, ast.Name) and norm(r) == "0":
+                    mask_var = l.id
+                if isinstance(c.ops[0], ast.Gt) and isinstance(r, ast.Name) and norm(l) == "0":
+                    mask_var = r.id
+    if mask_var is None:
         res.add(Finding("C18", "FLAG.negative-mask", m.rel, "FlagByExactValueProvider._make_loader", "; ".join(raises),
                         "flags with negative values must be refused at creation (documented exclusion)", fn.lineno))
+        mask_var = next((k for k, v in defs.items() if "reduce" in norm(v) or "|" in norm(v)), "flag_mask")
+    full = (f"2**{mask_var}.bit_length()-1", f"(1<<{mask_var}.bit_length())-1")
+
+    def expands_to_full(e: ast.expr) -> bool:
+        if isinstance(e, ast.Name) and e.id in defs:
+            e = defs[e.id]
+        return norm(e).replace(" ", "") in full
+    contiguous = False
+    for t in raise_tests:
+        for c in ast.walk(t):
+            if isinstance(c, ast.Compare) and len(c.ops) == 1 and isinstance(c.ops[0], (ast.NotEq, ast.Eq)):
+                l, r = c.left, c.comparators[0]
+                if (norm(l) == mask_var and expands_to_full(r)) or (norm(r) == mask_var and expands_to_full(l)):
+                    contiguous = isinstance(c.ops[0], ast.NotEq)
     if not contiguous:
         res.add(Finding("C18", "FLAG.skipped-bits", m.rel, "FlagByExactValueProvider._make_loader", "; ".join(raises),
-                        "flags with skipped bits must be refused at creation: the loader's range test would accept "
-                        "integers that are not a combination of members", fn.lineno))
-    # all_bits = 2 ** mask.bit_length() - 1
-    ab = [n for n in ast.walk(fn) if isinstance(n, ast.Assign) and norm(n.targets[0]) == "all_bits"]
-    if ab and norm(ab[0].value).replace(" ", "") not in ("2**flag_mask.bit_length()-1", "(1<<flag_mask.bit_length())-1"):
-        res.add(Finding("C18", "FLAG.skipped-bits", m.rel, "FlagByExactValueProvider._make_loader", norm(ab[0]),
-                        "contiguity test must compare the mask with 2**bit_length - 1", ab[0].lineno))
+                        "flags with skipped bits must be refused at creation (mask != 2**mask.bit_length() - 1): the loader's "
+                        "range test would accept integers that are not a combination of members", fn.lineno))
     # loader range test
     cl = [d for d in fn.body if isinstance(d, ast.FunctionDef)]
     res.evaluated("flag-exact:range", True)
@@ -310,7 +326,7 @@ def flag_exact(repo: Repo, m: ModuleInfo, res: CheckResult) -> None:
         raise AnalysisError("FlagByExactValueProvider._make_loader: expected one closure")
     tests = [norm(n.test).replace(" ", "") for n in cl[0].body if isinstance(n, ast.If)]
     d = cl[0].args.args[0].arg
-    ok_range = any(t in (f"{d}<0or{d}>flag_mask", f"{d}>flag_maskor{d}<0", f"not0<={d}<=flag_mask") for t in tests)
+    ok_range = any(t in (f"{d}<0or{d}>{mask_var}", f"{d}>{mask_var}or{d}<0", f"not0<={d}<={mask_var}") for t in tests)
     ok_type = any(t == f"type({d})isnotint" for t in tests)
     if not ok_range:
         res.add(Finding("C18", "FLAG.range", m.rel, "FlagByExactValueProvider._make_loader.flag_loader", "; ".join(tests),
